@@ -1702,9 +1702,14 @@ class PyCdlib:
             self.enhanced_vd.root_directory_record().data_length = self.pvd.root_directory_record().data_length
 
         if self.udf_anchors:
+            # The last anchor lives in the last sector of the volume (which is
+            # where a reader looks for it), even if the volume is larger than
+            # what has been assigned so far.
+            current_extent = max(current_extent, self.pvd.space_size - 1)
             self.udf_anchors[-1].set_extent_location(current_extent,
                                                      self.udf_main_descs.pvds[0].extent_location(),
                                                      self.udf_reserve_descs.pvds[0].extent_location())
+            current_extent += 1
 
         if current_extent > self.pvd.space_size:
             raise pycdlibexception.PyCdlibInternalError('Assigned an extent beyond the ISO (%d > %d)' % (current_extent, self.pvd.space_size))
